@@ -78,6 +78,8 @@ func c08Verdict(text []byte, oo ...jschema.Option) bool {
 	s := jschema.New("s", text, oo...)
 	t := jschema.New("t", `{"x": 1}`, oo...)
 	if err := s.AddType("@t", t); err != nil {
+		// the schema itself was refused while the type was being added: Check refuses it as well
+		v.Assert(s.Check() != nil, "C08/check-passes-after-refused-addtype")
 		return false
 	}
 	return s.Check() == nil
